@@ -1,12 +1,12 @@
-"""Developer tool: run N cases of a check and print every finding signature with counts and an example."""
+"""Developer tool: run N cases of a check and print every finding signature with counts and an example (compact)."""
 import collections, json, os, sys
 sys.path.insert(0, os.path.dirname(os.path.dirname(os.path.abspath(__file__))))
 from bcsim import main as m
 m.zygote_init()
-from bcsim import engine
 cid, n = sys.argv[1], int(sys.argv[2])
 seed = int(sys.argv[3]) if len(sys.argv) > 3 else 1
 tier = sys.argv[4] if len(sys.argv) > 4 else "quick"
+width = int(os.environ.get("TRIAGE_WIDTH", "260"))
 chk = m.load_check(cid)
 os.environ["VERIF_RUNS"] = str(n)
 b = chk.run_batch(tier, seed)
@@ -15,13 +15,14 @@ herr = 0
 for r in b["results"]:
     if "__harness_error__" in r:
         herr += 1
-        if herr <= 2: print("HARNESS", r["__harness_error__"][:1500], r.get("tb", "")[-1500:])
+        if herr <= 1: print("HARNESS", r["__harness_error__"][:600], r.get("tb", "")[-900:])
         continue
     for f in r["findings"]:
         key = chk.sig_key(f) if hasattr(chk, "sig_key") else __import__("bcsim.judge").judge.sig_key(f)
         groups[key].append((r["idx"], f))
-print("runs", len(b["results"]), "harness errors", herr, "wall", round(b["wall"], 1))
-for key, insts in sorted(groups.items(), key=lambda kv: -len(kv[1])):
+print("runs", len(b["results"]), "harness errors", herr, "wall", round(b["wall"], 1), "signatures", len(groups))
+for key, insts in sorted(groups.items(), key=lambda kv: -len(kv[1]))[: int(os.environ.get("TRIAGE_MAX", "25"))]:
     idx, f = insts[0]
-    print(len(insts), key, "first run", idx)
-    print("     ", json.dumps({k: v for k, v in f.items()}, default=str)[:600])
+    print(len(insts), str(key)[:width], "run", idx)
+    d = f.get("detail") or f.get("world") or ""
+    if d: print("      ", str(d)[:width])
